@@ -4143,6 +4143,8 @@ def rule_dim_binding(ck, W, facts):
                 wloc[(tag.name, shape, str(dv))] = (f, tag.where)
         elif re.search(r"mesh_file_reader\.hpp$", f.file):
             for a in accs:
+                if a.get("cconst"):
+                    continue          # the const overload cannot fill the set: a validator of parsed data (MappCheckHelper), not the reader of a <... dim=> block
                 par = W.ecfg(f).parents()
                 call = par.get(id(a))
                 while call is not None and call.get("k") == "Cast":
